@@ -15,6 +15,7 @@ import (
 	"sync"
 	"time"
 
+	"github.com/IrineSistiana/mosproxy/internal/dnsmsg"
 	"github.com/IrineSistiana/mosproxy/internal/upstream/transport"
 	"github.com/IrineSistiana/mosproxy/internal/verifhook"
 	"github.com/IrineSistiana/mosproxy/internal/zzverif/vtrace"
@@ -193,6 +194,12 @@ type rrRun struct {
 	aborted               []bool
 	wkOwner               []string // per conn: who runs releaseConn: "wk" | "dial"
 	wg                    sync.WaitGroup
+	held                  []heldMsg // replies the callers still own
+}
+
+type heldMsg struct {
+	m *dnsmsg.Msg
+	e int
 }
 
 var rrCur *rrRun
@@ -426,10 +433,15 @@ func (r *rrRun) start(e int) {
 		case errors.Is(err, errRRDial):
 			cls = "dialerr"
 		}
-		if resp != nil {
+		// like the router, the caller ends its context once it has the result, and goes on using the message:
+		// it must still be the same message when the exchange goroutine has finished (checked at clean-up)
+		cancel(context.Canceled)
+		r.mu.Lock()
+		if resp != nil && cls == "ok" {
+			r.held = append(r.held, heldMsg{m: resp, e: e})
+		} else if resp != nil {
 			releaseMsg(resp)
 		}
-		r.mu.Lock()
 		r.pc[e-1], r.res[e-1] = "done", cls
 		r.mu.Unlock()
 	}()
@@ -631,12 +643,25 @@ func (r *rrRun) cleanup() bool {
 	r.t.Close()
 	done := make(chan struct{})
 	go func() { r.wg.Wait(); close(done) }()
+	ok := true
 	select {
 	case <-done:
-		return true
 	case <-time.After(3 * time.Second):
-		return false
+		ok = false
 	}
+	// give the exchange goroutines (released above) a moment to run down, then look at the held replies
+	time.Sleep(300 * time.Microsecond)
+	r.mu.Lock()
+	held := r.held
+	r.held = nil
+	r.mu.Unlock()
+	for _, h := range held {
+		if h.m.Header.ID != uint16(2000+h.e) || qnameOf(h.m) != h.e {
+			tr.Emit("rp.changed", "ex", h.e, "id", int(h.m.Header.ID), "where", "reply of the one-at-a-time transport changed while its caller owned it")
+		}
+		releaseMsg(h.m)
+	}
+	return ok
 }
 
 func modeRReplay(file string, stepTimeout time.Duration) {
